@@ -126,4 +126,16 @@ theorem c10_expand_sound (σ : Env) (data : STn) (cd : CT) (ad sizes out : List 
     Agrees σ (.shape out) (.shaped zs) :=
   c10_binaryShape_sound σ data (.shape sizes) cd (.shaped vsz) ad sizes out zs hd hs had rfl hpd hps hi he
 
+/-- Satisfiability of the hypotheses of `c10_gather_vector_sound`, `c10_concat_sound`, `c10_bdim_sound`
+and `c10_binaryShape_sound` on concrete instances. -/
+example : (gatherValues [.var "n" true, .val 4, .val 7] false [-1, 0]).toOption = some (.vector [.val 7, .var "n" true]) ∧
+    cgather [3, 4, 7] [-1, 0] = some [7, 3] := by decide
+
+example : concatValues [.vector [.var "n" true], .scalar (.val 2), .vector []] = some (.vector [.var "n" true, .val 2]) ∧
+    cconcat [.vector [3], .scalar 2, .vector []] = some (.vector [3, 2]) := by decide
+
+example : (bdim (.var "a" true) (.val 5)).toOption = some (.val 5) ∧ cb 1 5 = some 5 ∧ cb 5 5 = some 5 ∧
+    (binaryShape (.shape [.var "a" true, .val 1]) (.shape [.val 3])).toOption = some (.shape [.var "a" true, .val 3]) ∧
+    cbroadcast [2, 1] [3] = some [2, 3] := by decide
+
 end RtenVerif.ShapeInfer
